@@ -2,14 +2,20 @@
    Only statements; proofs live in ClientProofs/ImplP.v and ClientProofs/LifecycleW.v.
 
    Models: Client/Impl.v (MqttClientImpl), Client/Driver.v (both event loops as one transition system
-   over abstract driver events, flag thr = threaded).  The protocol engine is ABSTRACT in the positive
-   theorems; what they assume about it is exactly [engine_facts] (ClientProofs/ImplP.v): eight
+   over abstract driver events, flag thr = threaded).  The protocol engine is ABSTRACT in the first group
+   of positive theorems; what they assume about it is exactly [engine_facts] (ClientProofs/ImplP.v): eight
    statements built from the executable predicates fact_* of Client/Impl.v, which the C12 driver
-   evaluates on every call of the REAL engine it observes.  The regression theorems for the repaired
-   defects D13 / D10b run the former counterexamples on the engine MODEL (Engine/Instance.v). *)
+   evaluates on every call of the REAL engine it observes.  The second group (C12_composed_*, end of the
+   file) DISCHARGES that hypothesis for the engine model (Engine/Instance.v: i_init / i_step): the adapter
+   Client/ImplEngine.v satisfies the facts on every well-formed engine state (C12_engine_model_facts), so
+   the theorems hold for the composed model client + engine with no premise but environment bounds
+   (ok_cfg: finite ping timeout; the clock stays below 2^62 ms).  The regression theorems for the repaired
+   defects D13 / D10b run the former counterexamples on the composed model. *)
 From GM Require Import Base.Prelude Base.Outcome Codec.Packets Engine.Model Engine.Instance
   Client.Backoff Client.Impl Client.Driver Client.MiniEngine Client.ImplEngine
-  ClientProofs.ImplP ClientProofs.LifecycleW ClientProofs.EngineFactsP.
+  ClientProofs.ImplP ClientProofs.LifecycleW ClientProofs.EngineFactsP ClientProofs.ComposedP.
+From GM Require EngineProofs.WFDefs.
+Notation ok_cfg := WFDefs.ok_cfg.
 Open Scope N_scope.
 
 (* compute_optional_state_transition, exhaustively: all 5 current x 5 desired x 3 stop-option shapes
@@ -148,3 +154,96 @@ Proof. exact ie_fact_opened. Qed.
 Example C12_engine_facts_satisfiable :
   engine_facts me unit unit me_tag me_user me_disc me_reset me_opened me_closed me_data me_wc me_service.
 Proof. exact mini_engine_facts. Qed.
+
+
+(* ================= the composed model: client implementation + event loop over the ENGINE MODEL =================
+   E := istate (Engine/Instance.v), every engine entry point := the corresponding i_step call (Client/ImplEngine.v;
+   client clock in ns, engine clock in ms, service buffer capacity 4096).  No engine hypothesis is left:
+   [IWF cfg] is the engine's well-formedness invariant (EngineProofs/WFStep.v WFX on the instance), it holds of i_init and is
+   preserved by every i_step; on the states satisfying it the adapter obeys all eight facts.  Proved from the protocol-state
+   table (C07_protocol_state_table), the close spec (close returns Ok from every well-formed state but Disconnected: C11_close_clean)
+   and EngineProofs/ConnackEvents.v (one IncomingData call reports at most one CONNACK, only while one is awaited, and a
+   successful one ends the wait). *)
+Theorem C12_engine_model_facts : forall cfg, ok_cfg cfg ->
+  engine_facts_inv istate ImplEngine.U packet (IWF cfg) clock_ms_ok ie_tag (ie_user cfg) (ie_disc cfg) (ie_reset cfg)
+    (ie_opened cfg) (ie_closed cfg) (ie_data cfg) (ie_wc cfg) (ie_service cfg).
+Proof. exact ie_engine_facts. Qed.
+
+Theorem C12_engine_model_init_wf : forall cfg k, IWF cfg (i_init cfg k) /\ ie_tag (i_init cfg k) = TDisconnected.
+Proof. intros cfg k. split; [apply IWF_init|reflexivity]. Qed.
+
+(* [i_clock_ok h]: every event of the history happens at a clock value of at most 2^62 ms (TMAX) *)
+Theorem C12_composed_event_grammar : forall cfg, ok_cfg cfg -> forall k thr bc timeout h, i_clock_ok h ->
+  grammar_ok (d_log (i_drun cfg thr (i_dinit cfg k bc timeout) h)) = true.
+Proof. exact composed_event_grammar. Qed.
+
+Theorem C12_composed_loop_alive : forall cfg, ok_cfg cfg -> forall k thr bc timeout h, i_clock_ok h ->
+  d_status (i_drun cfg thr (i_dinit cfg k bc timeout) h) <> Dead.
+Proof. exact composed_loop_alive. Qed.
+
+Theorem C12_composed_stop_stops : forall cfg, ok_cfg cfg -> forall k thr bc timeout h now, i_clock_ok h ->
+  let s := i_drun cfg thr (i_dinit cfg k bc timeout) h in
+  d_status s = Running -> c_des (d_c s) = CStopped -> (cur s <> CConnected \/ c_stop (d_c s) <> SDisc) ->
+  let s' := check istate (ie_opened cfg) (ie_closed cfg) thr s now in
+  d_status s' = Running /\ cur s' = CStopped /\ c_des (d_c s') = CStopped /\
+  exists evs, d_log s' = d_log s ++ evs /\
+              count_stopped evs = (if cstate_eqb (cur s) CStopped then 0 else 1)%nat /\
+              existsb is_attempt_ev evs = false.
+Proof. exact composed_stop_stops. Qed.
+
+Theorem C12_composed_stop_stops_two_events : forall cfg, ok_cfg cfg -> forall k thr bc timeout h now now' d, i_clock_ok h ->
+  let s := i_drun cfg thr (i_dinit cfg k bc timeout) h in
+  d_status s = Running -> d_flush s = false -> d_pos s = 0 ->
+  c_stop (handle_op istate ImplEngine.U packet ie_tag (ie_user cfg) (ie_disc cfg) (ie_reset cfg) (d_c s) now (OpStop d)) <> SDisc ->
+  let s2 := i_dstep cfg thr (i_dstep cfg thr s now (DOp (OpStop d))) now' DCheck in
+  d_status s2 = Running /\ cur s2 = CStopped /\ c_des (d_c s2) = CStopped /\
+  exists evs, d_log s2 = d_log s ++ evs /\
+              count_stopped evs = (if cstate_eqb (cur s) CStopped then 0 else 1)%nat /\
+              existsb is_attempt_ev evs = false.
+Proof. exact composed_stop_stops_two_events. Qed.
+
+(* the designed wait is entered only on an established connection: the engine model is Connected (it has queued the DISCONNECT) *)
+Theorem C12_composed_stop_waits_only_when_established : forall cfg, ok_cfg cfg -> forall k thr bc timeout h now d, i_clock_ok h ->
+  let s := i_drun cfg thr (i_dinit cfg k bc timeout) h in
+  d_status s = Running ->
+  let c' := handle_op istate ImplEngine.U packet ie_tag (ie_user cfg) (ie_disc cfg) (ie_reset cfg) (d_c s) now (OpStop d) in
+  c_stop c' = SDisc -> c_cur c' = CConnected /\ s_st (c_eng c') = Connected.
+Proof. exact composed_stop_waits_only_when_established. Qed.
+
+Theorem C12_composed_restartable : forall cfg k thr bc timeout h now,
+  let s := i_drun cfg thr (i_dinit cfg k bc timeout) h in
+  d_status s = Running -> cur s = CStopped -> c_des (d_c s) = CConnected ->
+  let s' := check istate (ie_opened cfg) (ie_closed cfg) thr s now in
+  cur s' = CConnecting /\ d_log s' = d_log s ++ [EvAttempt] /\ d_status s' <> Dead.
+Proof. exact composed_restartable. Qed.
+
+Theorem C12_composed_close_terminal : forall cfg, ok_cfg cfg -> forall k thr bc timeout h now k', i_clock_ok h ->
+  let s := i_drun cfg thr (i_dinit cfg k bc timeout) h in
+  d_status s = Running -> c_des (d_c s) = CShutdown -> (cur s <> CConnected \/ c_stop (d_c s) <> SDisc) ->
+  let s' := check istate (ie_opened cfg) (ie_closed cfg) thr s now in
+  d_status s' = Exited /\
+  existsb is_attempt_ev (skipn (length (d_log s)) (d_log s')) = false /\
+  i_drun cfg thr s' k' = s'.
+Proof. exact composed_close_terminal. Qed.
+
+(* the engine inside every reachable running state of the composed model is well-formed (so no engine call made by the
+   client panics: C11_reachable_no_panic's step lemma applies to it) *)
+Theorem C12_composed_engine_wf : forall cfg, ok_cfg cfg -> forall k thr bc timeout h, i_clock_ok h ->
+  d_status (i_drun cfg thr (i_dinit cfg k bc timeout) h) = Running ->
+  IWF cfg (c_eng (d_c (i_drun cfg thr (i_dinit cfg k bc timeout) h))).
+Proof. exact composed_engine_wf. Qed.
+
+(* non-vacuity and an executable run of the composed model, both drivers: start; transport up; CONNECT written; the
+   broker's CONNACK (bytes produced by the reference encoder Codec/SpecEncodeS2C); stop with a DISCONNECT packet (the client
+   waits: SDisc, engine Connected); DISCONNECT written and flushed; EOF.  The premises ok_cfg / i_clock_ok hold of it. *)
+Example C12_composed_run :
+  ok_cfg w_cfg /\ i_clock_ok w_composed_history /\
+  forall thr,
+  w_connack_wire = [32; 3; 0; 0; 0] /\
+  (let s := i_drun w_cfg thr w_init (firstn 11 w_composed_history) in
+   d_log s = [EvAttempt; EvSuccess] /\ cur s = CConnected /\ c_stop (d_c s) = SDisc /\ s_st (c_eng (d_c s)) = Connected) /\
+  (let s := i_drun w_cfg thr w_init w_composed_history in
+   d_log s = [EvAttempt; EvSuccess; EvDisconnection EUserInitiatedDisconnect false; EvStopped] /\
+   cur s = CStopped /\ d_status s = Running /\ s_st (c_eng (d_c s)) = Disconnected /\
+   map fst (map fst (d_conns s)) = [[16; 15; 0; 4; 77; 81; 84; 84; 5; 2; 0; 0; 0; 0; 2; 97; 97; 224; 0]]).
+Proof. split; [exact w_cfg_ok|]. split; [exact w_composed_history_clock_ok|exact composed_run]. Qed.
